@@ -338,6 +338,14 @@ def check_lines_specs(ctx, rng, path, arch, workdir, specs=None, n_random=0):
             bad.append((tag, spec, "--lines %s on a %d-line file: the analysed kernel must be lines %s, the report shows %s" % (
                 spec, len(lines), want, got_rows if got_rows is not None else got), replay))
         elif got != refs[key]:
+            # a state-dependent analysis (C18's subject) would make the comparison meaningless: re-run the reference
+            fr = os.path.join(workdir, "lines_ref.s")
+            with open(fr, "w") as fh:
+                fh.write("\n".join(lines[n - 1] for n in want) + "\n")
+            rep2, err2 = run_osaca(["--arch", arch, fr])
+            again = canon(rep2, {i + 1: i for i in range(len(want))}) if rep2 is not None else "EXCEPTION " + err2
+            if again != refs[key]:
+                continue
             x, y = refs[key].split("\n"), got.split("\n")
             diff = next(("only-these-lines file: %r | --lines: %r" % (p, q) for p, q in zip(x, y) if p != q), "length %d vs %d" % (len(x), len(y)))
             bad.append((tag, spec, "--lines %s: numbers differ from the file containing only the named lines: %s" % (spec, diff), replay))
